@@ -11,7 +11,7 @@ from vfw.core import Sub, Violation
 PROP = "C18"
 RULE = ("pairs: two rectangles on a dyadic lattice (unit 2^k, coordinates 0..14 units, regions from {_,A,B,#}, "
         "fixed/hard flags) so that FRAME's float arithmetic is exact and a Fraction oracle must agree bit for bit; "
-        "non-trivial = the closed rectangles share at least a boundary point; distinct = distinct canonical case. "
+        "each rectangle also against itself (one object on both sides); non-trivial = the closed rectangles share at least a boundary point; distinct = distinct canonical case. "
         "splits: one rectangle + cut coordinates (lattice, half-lattice, negative = halve), grid shapes 1..6 x 1..6, "
         "cuttable ratios; non-trivial = every case.")
 ASSUMPTIONS = [
@@ -21,11 +21,12 @@ ASSUMPTIONS = [
     "split() at w == h may halve either side",
 ]
 
-REGIONS = ["_", "_", "A", "B", "#"]
+REGIONS = ["_", "_", "A", "B", "#", "dsp", "dsp", "BRAM"]
 
 
 def mk(rect, unit, region="_", fixed=False, hard=False):
     cx, cy, w, h = L.csr(rect, unit)
+    region = (region + " ")[:-1]  # (every rectangle gets its own string object, as names read from a document are: names are compared, not identified)
     return Rectangle(center=Point(float(cx), float(cy)), shape=Shape(float(w), float(h)), region=region,
                      fixed=fixed, hard=hard)
 
